@@ -10,6 +10,7 @@ FIXED_TYPES = [
     ["vec", ["list", ["bool"], 9], 3], ["list", ["bitlist", 300], 4], ["list", ["union", False, [["uint", 2], ["bitvec", 9]]], 6],
     ["cont", [["vec", ["bool"], 33], ["bitvec", 3], ["union", True, [["bytevec", 4]]]]],
     ["union", False, [["union", False, [["uint", 1]]]]],
+    ["union", True, [["uint", 2], ["uint", 2], ["bitlist", 9], ["uint", 2]]],
     ["list", ["uint", 32], 3], ["vec", ["uint", 16], 3], ["list", ["bool"], 300],
     ["cont", [["uint", 1], ["list", ["bytelist", 4], 4]]], ["list", ["list", ["bytelist", 4], 4], 2],
     ["vec", ["list", ["bitlist", 9], 3], 2], ["cont", [["list", ["list", ["uint", 2], 3], 3], ["bitlist", 8]]],
